@@ -1365,6 +1365,15 @@ def r51_strategy_table(ctx, sc: SimCtx):
                             elif isinstance(c.func, ast.Attribute) and is_self_attr(c.func) and c.func.attr not in FIRES \
                                     and c.func.attr in eff.mutating_method_names():
                                 effects.append(('selfcall', c.func.attr))
+                            elif not (f in ('print', 'str', 'repr', 'format', 'type', 'len', 'isinstance') or f.startswith(('logger.', 'logging.', 'traceback.'))):
+                                # anything else can fail inside the handler and escape the run loop as an unrelated error
+                                effects.append(('may-raise', f + '()'))
+                        elif isinstance(c, ast.Attribute) and isinstance(c.ctx, ast.Load) and isinstance(c.value, ast.Name) \
+                                and c.value.id not in ('self', 'logger', 'traceback', 'sys', 'logging', 'ErrorStrategy', 'RunState', 'ReplicationState') \
+                                and c.value.id != (h.name or '') and not isinstance(getattr(c, '_parent_call', None), ast.Call):
+                            callee_of = any(isinstance(k, ast.Call) and k.func is c for k in walk_shallow(s))
+                            if not callee_of:
+                                effects.append(('may-raise', f'attribute of local {c.value.id}'))
         run(h.body)
         table[name] = effects
         ctx.examined()
@@ -1376,18 +1385,21 @@ def r51_strategy_table(ctx, sc: SimCtx):
         if not ok:
             ctx.finding('R5.1', f'DEVSSimulator._run:{name}', dc, h,
                         f'under {name} the handler around event.execute() has effects {table[name]}: the run does not simply continue with the next event '
-                        f'(events are lost, reordered or the run stops)', where='DEVSSimulator._run')
+                        f'(events are lost, reordered or the run stops' + (', or the handler itself can raise and escape the loop' if any(e[0] == 'may-raise' for e in table[name]) else '') + ')',
+                        where='DEVSSimulator._run')
     for name in spec_pause:
         writes = [e for e in table[name] if e[0] == 'write']
         others = [e for e in table[name] if e[0] not in ('write',) and e != ('control', 'break')]
         ok = writes == [('write', 'self._run_state')] and not others
+        mayraise = [e for e in table[name] if e[0] == 'may-raise']
         # value written
         stop_writes = [n for n in walk_shallow(h) if isinstance(n, ast.Assign) and any(is_self_attr(t, '_run_state') for t in n.targets)]
         ok = ok and all(unparse(w.value) == 'RunState.STOPPING' for w in stop_writes)
         ctx.ob('R5.1', f'strategy:{name}', ok, sample=f'{name}: handler effects {table[name]}')
         if not ok:
             ctx.finding('R5.1', f'DEVSSimulator._run:{name}', dc, h,
-                        f'under {name} the handler must do exactly `run_state := STOPPING` (remaining events stay queued, nothing later runs); it does {table[name]}',
+                        f'under {name} the handler must do exactly `run_state := STOPPING` (remaining events stay queued, nothing later runs); it does {table[name]}'
+                        + (' -- and it calls / dereferences something that can fail inside the handler, so the failure escapes the run loop as an unrelated error' if mayraise else ''),
                         where='DEVSSimulator._run')
     for name in strategies:
         if name not in spec_continue and name not in spec_pause:
@@ -1520,6 +1532,24 @@ def r61_initialize_order(ctx, sc: SimCtx):
         ctx.finding('R6.1', 'Simulator.initialize:clock-reset', bci, resets[0] if resets else bfn,
                     'the clock is not reset to the replication start before construct_model(): events scheduled by the model use the clock of the previous replication',
                     where='Simulator.initialize')
+    # anything that drops subscriptions (cleanup -> remove_all_listeners) must happen before the model is rebuilt:
+    # statistics created in construct_model() subscribe to the simulator
+    if cm:
+        cmn = _node_containing(gb, cm[0])
+        rbe_tmp = RBE(prog)
+        for x in walk_shallow(bfn):
+            if isinstance(x, ast.Call):
+                sck = self_call_kind(x, prog)
+                if sck and sck[0] == 'self' and sck[1] not in FIRES:
+                    d2, f2 = prog.resolve(SIM, sck[1])
+                    if f2 is not None and '_listeners' in rbe_tmp.writes_of(SIM, d2.name, f2):
+                        xn = _node_containing(gb, x)
+                        late = gb.reaches(cmn, xn)
+                        ctx.ob('R6.1', f'{sck[1]}-before-construct', not late, sample=f'Simulator.initialize: self.{sck[1]}() (drops listeners) cannot run after construct_model(): {not late}')
+                        if late:
+                            ctx.finding('R6.1', f'Simulator.initialize:{sck[1]}-after-construct_model', bci, x,
+                                        f'self.{sck[1]}() removes the simulator\'s listeners and can run after construct_model(): statistics the model has just created '
+                                        f'lose their WARMUP / END_REPLICATION subscriptions on a re-initialisation', where='Simulator.initialize')
     # states := INITIALIZED on every normal path
     for fld, val in (('_run_state', 'RunState.INITIALIZED'), ('_replication_state', 'ReplicationState.INITIALIZED')):
         ws = [n for w in _writes_of(bfn, fld, val) for n in _nodes_containing(gb, w)]
